@@ -11,7 +11,7 @@ from . import chartgen as cg
 class Inst:
     def __init__(self, g, chart, naming='id', order=None, tr_order=None, sends=None, tag='',
                  sc=None, interp_kwargs=None, extra_context=None, guards=True, priorities=None,
-                 code_hook=None, guard_key=None, cache_key=None):
+                 code_hook=None, guard_key=None, cache_key=None, moved=None):
         from sismic.interpreter import Interpreter
         self.g = g
         self.tag = tag
@@ -43,7 +43,7 @@ class Inst:
             sc = g.cache[('chart', cache_key)]       # the Statechart is not mutated by interpretation
         if sc is None:
             self.sc, self.trs, self.cm = cg.build(chart, naming, code, order=order, tr_order=tr_order,
-                                                  priorities=priorities)
+                                                  priorities=priorities, moved=moved)
             if cache_key is not None:
                 g.cache[('chart', cache_key)] = (self.sc, self.trs, self.cm)
         else:
